@@ -78,6 +78,10 @@ def _case(draw, tier):
         "bigint": draw(st.sampled_from([False, False, False, True])),
         # a second pass over the same merged reader started while the first is under way
         "overlap": draw(st.sampled_from([False, False, True])),
+        # row-dict merge histories: an earlier merge over other inputs abandoned part way (a consumer that stops at a
+        # threshold), or a second merge consumed alternately with the observed one
+        "history": draw(st.sampled_from(["none", "abandoned", "abandoned", "interleaved"])),
+        "history_steps": draw(st.integers(1, 6)),
     }
 
 
@@ -149,7 +153,23 @@ def check(case):
 
         def run():
             if impl == "merge_sort":
+                hist = case.get("history", "none")
+                other = list(reversed(paths))
                 with config_inject.chunk_sizes(merge=case["chunk"]):
+                    if hist == "abandoned":
+                        it0 = mutils.merge_sort(other, score_column=c_score)
+                        for _ in range(case.get("history_steps", 1)):
+                            next(it0, None)
+                    if hist == "interleaved":
+                        a, b = mutils.merge_sort(paths, score_column=c_score), mutils.merge_sort(other, score_column=c_score)
+                        out_a, out_b = [], []
+                        for ra, rb in zip(a, b):
+                            out_a.append(dict(ra))
+                            out_b.append(dict(rb))
+                        sb = [float(r[c_score]) for r in out_b]
+                        require(sorted(r[c_id] for r in out_b) == sorted(all_rows) and all(x >= y for x, y in zip(sb, sb[1:])),
+                                "interleaved-merge", f"second of two alternately consumed merges: {len(out_b)} rows, scores {sb[:20]}")
+                        return out_a
                     return [dict(r) for r in mutils.merge_sort(paths, score_column=c_score)]
             readers = [td.TabularDataReader.from_path(p) for p in paths]
             if impl == "merge_readers":
@@ -248,4 +268,6 @@ def check(case):
         classes.append("integer-scores-beyond-2**53")
     if case.get("overlap") and impl == "chunked":
         classes.append("overlapping-passes")
+    if impl == "merge_sort" and case.get("history", "none") != "none":
+        classes.append("merge-history-" + case["history"])
     return {"nontrivial": nontrivial, "classes": classes, "counters": {"rows_merged": n}}
